@@ -7,6 +7,7 @@ CONSTANTS
 INVARIANT SymmetricResult
 INVARIANT ModuliOfAverage
 INVARIANT AlignedReturnsC
+INVARIANT Lumping
 INVARIANT DeviationLocus
 INVARIANT BasisModuliK
 INVARIANT BasisModuliG
